@@ -361,6 +361,8 @@ def run_case(c, d):
     if d['fn'] == 'HERMTOEP':
         r = make_ac(c, dict(d, src=d['src']))
         Z = gen.noise(rng, p + 1, cplx)
+        sc = (1.0, 1e-9, 1e9, 1e-12)[(d.get('i', 0) // 3) % 4]        # the same system in other units
+        r, Z = np.asarray(r) * sc, Z * sc
         lmin, lmax = _definiteness(r, p)
         try:
             spectrum.toeplitz.HERMTOEP(float(np.real(r[0])), np.asarray(r[1:], dtype=complex), Z)
@@ -383,6 +385,8 @@ def run_case(c, d):
             if how == 2:
                 tc, tr = tc[:min(p, 8)], tr[:min(p, 8)]
         Z = gen.noise(rng, len(tc) + 1, cplx)
+        sc = (1.0, 1e-9, 1e9, 1e-12)[(d.get('i', 0) // 3) % 4]        # the same system in other units: equally admissible
+        t0, tc, tr, Z = t0 * sc, tc * sc, tr * sc, Z * sc
         args = (t0, tc.astype(complex), tr.astype(complex), Z)
         if how == 2 and d.get('i', 0) % 2:
             args = (complex(t0) if cplx else float(t0), [complex(v) for v in tc], [complex(v) for v in tr], list(Z))
